@@ -5,6 +5,8 @@
 //!      holds exactly `limit`, `limit - 1` or `limit - 2` symbols, at a random cursor position;
 //!  (b) the limit lowered by >= 2 below the current length by a configuration call in mid-composition,
 //!      followed by editing keys (cursor keys, Backspace, Delete, a symbol, a mode toggle, a syllable).
+//!  (c) an editing sweep: Delete / Backspace / a symbol / a syllable at every cursor position of a buffer
+//!      of 3..10 symbols.
 //! Everything is derived from the session number (reproducible, independent of VERIF_SEED).
 use crate::script_c18::base_opts;
 use crate::Op;
@@ -13,7 +15,7 @@ use std::collections::VecDeque;
 use vharness::Rng;
 
 pub fn n_sessions(thorough: bool) -> u64 {
-    if thorough { 4000 } else { 240 }
+    if thorough { 6000 } else { 360 }
 }
 
 pub struct Script {
@@ -55,8 +57,31 @@ impl Script {
         q.push_back(Op::SetLayout(0));
         let mut o = base_opts();
         o.auto_shift_cursor = rng.chance(1, 2);
-        o.easy_symbol_input = sid % 2 == 0;
-        if sid % 2 == 0 {
+        o.easy_symbol_input = sid % 3 == 0;
+        if sid % 3 == 2 {
+            // (c) editing sweep: every cursor position of a buffer of 3..10 symbols x Delete / Backspace /
+            //     a symbol / a syllable, far below the limit
+            o.auto_commit_threshold = 39;
+            q.push_back(Op::SetOpts(o));
+            let n = 3 + rng.below(8);
+            fill(&mut q, &mut rng, n);
+            for _ in 0..8 {
+                q.push_back(key(Home));
+                for _ in 0..rng.below(n + 1) {
+                    q.push_back(key(Right));
+                }
+                match rng.below(6) {
+                    0 | 1 => q.push_back(key(Del)),
+                    2 | 3 => q.push_back(key(Backspace)),
+                    4 => q.push_back(Op::Key(Dot, Modifiers::shift())),
+                    _ => {
+                        for k in [G, N4] {
+                            q.push_back(key(k));
+                        }
+                    }
+                }
+            }
+        } else if sid % 3 == 0 {
             // (a) multi-symbol expansion at / near a full buffer
             let limit = *rng.pick(&[0u64, 1, 2, 3, 4, 5, 6, 8, 12, 20, 39]);
             o.auto_commit_threshold = limit as usize;
